@@ -39,6 +39,8 @@ import Proofs.InsertAtValid
 import Proofs.DeleteFlat
 import Proofs.FitOpen
 import Proofs.FitNoRaise
+import Proofs.FitRaiseFree
+import Proofs.FitStable
 import Proofs.FitNorm
 import Proofs.JoinSuccess
 import Proofs.Placement
@@ -2609,5 +2611,201 @@ theorem emitted_applies_of_result (S : Schema) (ty0 : TypeId) (a0 : Attrs) (m0 :
     (hs : sliceKids K F T₀ = .ok sl) (hL : LeftRel K' K F) (hR : RightRel S K' T K T₀) :
     ∃ doc', S.apply (.replace F T sl false) (.elem ty0 a0 m0 K') = .ok doc' :=
   replace_applies_of_result S ty0 a0 m0 K K' F T₀ T sl hvc hv hn hn' hft ht hft' hs hL hR
+
+/-! ## The Fitter never raises on opened slices (`fit_no_raise`)
+
+Inside the loop of `Fitter.fit` the code raises at three places only (`fit_no_raise_partial`, `fit_raise_sites` above, and
+the walk along a stale `open_start`); PM/FitRaiseGuard.lean names what each needs, as decidable predicates:
+
+* **start site** `close_node_start`: `node.type.content_match.fill_before(frag)` must not be `None` for the nodes of the open
+  start spine (`Schema.startSiteOk`; `assert fill_before_frag is not None` otherwise);
+* **end site** `place_nodes` pushing the open end: the children of the nodes of the open end spine must be a matchable
+  beginning of their content expression (`Schema.endSiteOk`; `content_match_at(child_count)` raises ValueError otherwise — the
+  finding C11-fitter-partial-node);
+* the **unplaced slice stays `Slice.wf`**: `place_nodes` keeps `open_start` when it stops short of the end of a fragment above
+  the open level, and `open_more` raises `open_end` past a leaf that follows a non-leaf sibling; the next iteration then walks
+  `content_at(…).first_child.content` through a node that is not there (AttributeError / AssertionError; random schemas).
+
+`Slice.sitesOk` is the condition **in one state** (`fit_step_returns`; the end site is exact: `endSite_exact`, the start site
+at its innermost level: `startSite_exact`).  The open depths and the children present change over the run — `open_more` can
+open any node once what precedes it is placed or dropped, `drop_node` / `place_nodes` take children away from the front of an
+open node, the open end moves down the last-child chain when the only node left is opened — so the **static** guard on the
+request slice asks the condition of every *suffix* of a child list: `Slice.openPrefixOk` = `fillableKids` (every non-leaf node,
+every suffix of its children can be filled in front of) ∧ `endChainOk` (along the last-child chain every suffix of the children
+is a matchable beginning).  It is kept by everything the loop does to the unplaced content and implies `sitesOk` for all
+open depths (`openPrefixOk_invariant`).  Which slices satisfy it: every slice whose non-leaf nodes have content the
+automaton accepts from the start state whatever is cut off in front (`x*`, `x+`, `(x | y)*`, `title? block*`:
+`openPrefixOk_of_suffixClosed`) — in the bundled family every slice of the `basic`, `marks-on-doc` schemas and all slices of
+the others that do not put a `list_item(paragraph, list…)`, a `block(a, b)` (content `a b`) … on the last-child chain; the tie
+(op `fitRaise`, harness/rangeplan.py) counts them.  For the third place: `Slice.stableOk` (static; `stableOk_keeps_wf`) or the
+run hypothesis `unplacedWfWhile` (which, unlike `unplacedWfRun`, presupposes nothing about the run going through). -/
+
+/-- **`fit_step_returns`** — one iteration of the loop of `fit` returns in every state that is in step, whose unplaced slice
+    is well-formed and satisfies the two site conditions for its open depths (`Slice.sitesOk`) -/
+theorem fit_step_returns (S : Schema) (hdet : detB S = true) (hfill : S.fillersOKB = true) (hwrap : S.wrapOKB = true)
+    (hlab : S.labelsOKB = true) (hts : textStableC S = true) (hcl : S.closableB = true) (st : FitState)
+    (hin : st.inStepB = true) (hwf : st.unplaced.wf = true) (hsites : st.unplaced.sitesOk S = true) :
+    ∃ st', fitStep S st = .ok st' := by
+  simp only [FitState.inStepB, Bool.and_eq_true, Bool.not_eq_eq_eq_not, Bool.not_true, List.all_eq_true,
+    decide_eq_true_eq] at hin
+  obtain ⟨⟨hne, hall⟩, hsp⟩ := hin
+  have inv : InStep st := by
+    refine ⟨fun it hit => Option.isSome_iff_exists.1 (hall it hit), ?_, spineR_rspineOK _ _ hsp⟩
+    intro h0
+    rw [h0] at hne
+    simp at hne
+  exact fitStep_total S (detS_of_detB S hdet) (fillersOK_of_B S hfill) (wrapOK_of_B S hwrap) (labelsOK_of_B S hlab)
+    (closable_of_B S hcl) (textStableP_of_C S hts) st inv hwf hsites
+
+/-- **the end site is exact**: within the last-child chain, pushing the open end returns iff every node on it has children
+    that are a matchable beginning of its content (`content_match_at(child_count)` does not raise) -/
+theorem endSite_exact (S : Schema) (n : Nat) (cur : List Node) (fr : List FItem) (h : n ≤ spineR cur) :
+    (∃ fr', pushOpenEnd S n cur fr = .ok fr') ↔ S.endSiteOk cur n = true :=
+  pushOpenEnd_ok_iff S n cur fr h
+
+/-- **the start site is exact at its innermost level**: `close_node_start(node, 1, …)` returns iff
+    `fill_before(node.content)` is not `None` (schema guards as above, the node's type one of the schema) -/
+theorem startSite_exact (S : Schema) (hdet : detB S = true) (hfill : S.fillersOKB = true) (hts : textStableC S = true)
+    (hcl : S.closableB = true) (t : TypeId) (a : Attrs) (m : Marks) (kids : List Node) (oe : Int)
+    (ht : t < S.nodes.size) :
+    (∃ r, closeNodeStart S 1 (.elem t a m kids) oe = .ok r) ↔
+      (fillBeforeTypes S (S.dfa t) 0 (S.types kids) false).isSome = true := by
+  constructor
+  · intro ⟨r, h⟩
+    unfold closeNodeStart at h
+    obtain ⟨frag, hfrag, h⟩ := FM.bind_ok h
+    have : frag = kids := (pure_ok hfrag).symm
+    subst this
+    obtain ⟨fill, hf1, h⟩ := FM.bind_ok h
+    obtain ⟨fill', hf2, _⟩ := FM.bind_ok h
+    have e := liftRaise_ok hf2
+    subst e
+    have := fillBeforeNodes_types S _ _ _ _ fill' (liftRaise_ok hf1)
+    simp only [Schema.tyOf, Node.tyOr] at this
+    rw [this]; rfl
+  · intro h
+    exact closeNodeStart_total S (detS_of_detB S hdet) (fillersOK_of_B S hfill) (closable_of_B S hcl)
+      (textStableP_of_C S hts) 1 _ oe (by simp) (by simp [Schema.startSiteOk, ht, h])
+
+/-- **the static guard is an invariant and implies the site conditions**: `openPrefixOk` of the unplaced content is kept by
+    every iteration of the loop, and a slice that satisfies it satisfies `sitesOk` whatever its open depths -/
+theorem openPrefixOk_invariant (S : Schema) :
+    (∀ (c : List Node) (os oe : Nat), (⟨c, 0, 0⟩ : Slice).openPrefixOk S = true → (⟨c, os, oe⟩ : Slice).sitesOk S = true) ∧
+    (∀ (st st' : FitState), fitStep S st = .ok st' → st.unplaced.openPrefixOk S = true →
+      st'.unplaced.openPrefixOk S = true) := by
+  constructor
+  · intro c os oe h
+    simp only [Slice.openPrefixOk, Bool.and_eq_true] at h
+    exact sitesOk_of_openPrefix S ⟨c, os, oe⟩ h.1 h.2
+  · intro st st' h hg
+    simp only [Slice.openPrefixOk, Bool.and_eq_true] at hg ⊢
+    exact fitStep_content (openPrefix_stable S) S st st' h hg
+
+/-- **`stableOk_keeps_wf`** — the static guard for the third place: a well-formed unplaced slice whose content is stable
+    (`Slice.stableOk`: in every fragment each node is followed by one that fits wherever the first does, no leaf directly
+    behind a non-leaf node, no empty text) is well-formed after every iteration of the loop that returns, stays stable, and so
+    satisfies the run hypothesis `unplacedWfWhile`; it also satisfies the termination guard -/
+theorem stableOk_keeps_wf (S : Schema) :
+    (∀ (st st' : FitState), st.unplaced.wf = true → st.unplaced.stableOk S = true → fitStep S st = .ok st' →
+      st'.unplaced.wf = true ∧ st'.unplaced.stableOk S = true) ∧
+    (∀ (doc : Node) (f t : Nat) (sl : Slice), sl.wf = true → sl.stableOk S = true →
+      unplacedWfWhile S doc f t sl = true ∧ sl.termGuard = true) :=
+  ⟨fun st st' hwf hst h => ⟨fitStep_wf S st st' hwf hst h, fitStep_content (stable_dropStable S) S st st' h hst⟩,
+   fun doc f t sl hwf hst => ⟨unplacedWfWhile_of_stable S doc f t sl hwf hst, termGuard_of_stable S sl hwf hst⟩⟩
+
+/-- **`fit_no_raise_while`** — `replace_step` returns (`None` or a step: no exception, the loop ends, no negative `insert`)
+    for every request on a valid document whose slice satisfies the termination guard and the static guard `openPrefixOk`
+    and whose unplaced rest stays well-formed for as long as the Fitter runs (`unplacedWfWhile`, decidable, evaluated by the
+    driver; true on all but a few per thousand requests).  Schema guards: `detB`, `fillersOKB`, `wrapOKB`, `labelsOKB`,
+    `textStableC`, `closableB`. -/
+theorem fit_no_raise_while (S : Schema) (hdet : detB S = true) (hfill : S.fillersOKB = true) (hwrap : S.wrapOKB = true)
+    (hlab : S.labelsOKB = true) (hts : textStableC S = true) (hcl : S.closableB = true) (doc : Node) (f t : Nat)
+    (sl : Slice) (hv : C01.Valid S doc) (hattrs : S.nodeAttrsOK doc = true)
+    (htop : S.isTextblockO (S.tyOf doc) = false) (hft : f ≤ t) (ht : t ≤ fsize doc.kids)
+    (hterm : sl.termGuard = true) (hg : sl.openPrefixOk S = true) (hrun : unplacedWfWhile S doc f t sl = true) :
+    ∃ r, replaceStep S doc f t sl = .ok r :=
+  replaceStep_total_of_guards S (detS_of_detB S hdet) (fillersOK_of_B S hfill) (wrapOK_of_B S hwrap)
+    (labelsOK_of_B S hlab) (closable_of_B S hcl) (textStableP_of_C S hts) doc f t sl hv hattrs htop (by omega) ht hterm hg hrun
+
+/-- **`fit_no_raise`** — the same with static guards only: for every range `f ≤ t` of a valid document (top node not a
+    textblock, element types creatable) and **every slice, of any open depths**, that is well-formed (`Slice.wf`) and
+    satisfies `Slice.openPrefixOk` (the two raise sites of `place_nodes`) and `Slice.stableOk` (the unplaced slice stays
+    well-formed; it implies the termination guard), `replace_step` returns: the Fitter does not raise, its loop ends, and
+    the emitted step has a non-negative `insert`.  With `fitter_respects`, `fit_emits_wf`, `fit_emits_valid_payload` (whose run
+    hypothesis `unplacedWfRun` now follows: the loop returns and every state is well-formed) the answer is a well-formed step
+    with a valid payload that respects the request. -/
+theorem fit_no_raise (S : Schema) (hdet : detB S = true) (hfill : S.fillersOKB = true) (hwrap : S.wrapOKB = true)
+    (hlab : S.labelsOKB = true) (hts : textStableC S = true) (hcl : S.closableB = true) (doc : Node) (f t : Nat)
+    (sl : Slice) (hv : C01.Valid S doc) (hattrs : S.nodeAttrsOK doc = true)
+    (htop : S.isTextblockO (S.tyOf doc) = false) (hft : f ≤ t) (ht : t ≤ fsize doc.kids)
+    (hwf : sl.wf = true) (hg : sl.openPrefixOk S = true) (hst : sl.stableOk S = true) :
+    ∃ r, replaceStep S doc f t sl = .ok r :=
+  fit_no_raise_while S hdet hfill hwrap hlab hts hcl doc f t sl hv hattrs htop hft ht
+    (termGuard_of_stable S sl hwf hst) hg (unplacedWfWhile_of_stable S doc f t sl hwf hst)
+
+/-- **the guard is false on the finding's input, and the model raises there** (C11-fitter-partial-node): schema `block: "a b"`,
+    `doc(block(a("xy"), b("zw")))`, the slice `<block(a("y"), b("z"))>(2,2)` (cut with the parents kept) inserted at
+    position 6.  Every other hypothesis of `fit_no_raise` holds — schema guards, valid document, `stableOk`, `Slice.wf` (both
+    slices of this run are well-formed: the `example` below; `spineL` / `spineR` are not kernel-evaluable), even `sitesOk`
+    for the slice as it stands — but `endChainOk` is false: `[b]`, what is left of the block's children once
+    `a("y")` has been taken apart, is not a matchable beginning of `a b`.  After one iteration (`"y"` placed into the `a` of
+    the document, `a` dropped) the unplaced slice is `<block(b("z"))>(1,2)`, `sitesOk` is false, and the next iteration
+    raises: `place_nodes` places `block(b("z"))` — `close_node_start` fills `a()` in front — and pushes its open end with
+    `content_match_at(child_count)` over `[b]`.  The real `replace_step` raises ValueError on this input (the recorded
+    finding). -/
+example :
+    let nt (name : String) (isText inlc : Bool) (dfa : Array DfaState) : NodeType :=
+      { name := name, isText := isText, isInline := isText, isLeaf := isText, isAtom := isText,
+        inlineContent := inlc, isolating := false, defining := false, code := false,
+        dfa := dfa, markSet := none, attrs := [] }
+    let S : Schema := { nodes := #[nt "doc" false false #[⟨false, [(3, 1)]⟩, ⟨true, [(3, 1)]⟩],
+                                   nt "a" false true #[⟨true, [(4, 0)]⟩],
+                                   nt "b" false true #[⟨true, [(4, 0)]⟩],
+                                   nt "block" false false #[⟨false, [(1, 1)]⟩, ⟨false, [(2, 2)]⟩, ⟨true, []⟩],
+                                   nt "text" true false #[⟨true, []⟩]],
+                        marks := #[], top := 0, textTy := 4 }
+    let doc := Node.elem 0 [] [] [.elem 3 [] [] [.elem 1 [] [] [.text [120, 121] []], .elem 2 [] [] [.text [122, 119] []]]]
+    let sl : Slice := ⟨[.elem 3 [] [] [.elem 1 [] [] [.text [121] []], .elem 2 [] [] [.text [122] []]]], 2, 2⟩
+    detB S = true ∧ S.fillersOKB = true ∧ S.wrapOKB = true ∧ S.labelsOKB = true ∧ textStableC S = true ∧
+    S.closableB = true ∧ S.checkNode doc = true ∧ S.nodeAttrsOK doc = true ∧ S.isTextblockO (S.tyOf doc) = false ∧
+    sl.stableOk S = true ∧ sl.sitesOk S = true ∧ S.fillableKids sl.content = true ∧
+    S.endChainOk sl.content = false ∧ sl.openPrefixOk S = false ∧
+    (match replaceStep S doc 6 6 sl with | .error .raises => true | _ => false) = true ∧
+    (match doc.resolve 6 with
+     | some rf =>
+       (match (do let s0 ← fitInit S rf sl; fitStep S s0) with
+        | .ok s1 => s1.unplaced == ⟨[.elem 3 [] [] [.elem 2 [] [] [.text [122] []]]], 1, 2⟩ &&
+            !s1.unplaced.sitesOk S &&
+            (match fitStep S s1 with | .error .raises => true | _ => false)
+        | _ => false)
+     | none => false) = true := by decide +kernel
+
+/-- the hypotheses of `fit_no_raise` are satisfiable on a slice that is open on both sides and goes through the Fitter:
+    `<p("x"), p("y")>(1,1)` pasted into the paragraph of `doc(p("ab"))` at position 2 (`doc: "paragraph+"`,
+    `paragraph: "text*"`): all guards hold, the fit is not trivial, and the answer is the step that splits the paragraph -/
+example :
+    let nt (name : String) (isText inl : Bool) (dfa : Array DfaState) : NodeType :=
+      { name := name, isText := isText, isInline := isText, isLeaf := isText, isAtom := isText,
+        inlineContent := inl, isolating := false, defining := false, code := false,
+        dfa := dfa, markSet := none, attrs := [] }
+    let S : Schema := { nodes := #[nt "doc" false false #[⟨false, [(1, 1)]⟩, ⟨true, [(1, 1)]⟩],
+                                   nt "paragraph" false true #[⟨true, [(2, 0)]⟩],
+                                   nt "text" true false #[⟨true, []⟩]],
+                        marks := #[], top := 0, textTy := 2 }
+    let doc := Node.elem 0 [] [] [.elem 1 [] [] [.text [97, 98] []]]
+    let sl : Slice := ⟨[.elem 1 [] [] [.text [120] []], .elem 1 [] [] [.text [121] []]], 1, 1⟩
+    detB S = true ∧ S.fillersOKB = true ∧ S.wrapOKB = true ∧ S.labelsOKB = true ∧ textStableC S = true ∧
+    S.closableB = true ∧ S.checkNode doc = true ∧ S.nodeAttrsOK doc = true ∧ S.isTextblockO (S.tyOf doc) = false ∧
+    sl.openPrefixOk S = true ∧ sl.stableOk S = true ∧ fitsTriviallyO S doc 2 2 sl = some false ∧
+    (match replaceStep S doc 2 2 sl with
+     | .ok (some (.replace 2 2 sl' _)) => sl' == sl
+     | _ => false) = true := by decide +kernel
+
+/-- the slices of the two examples above are well-formed (`Slice.wf`) -/
+example :
+    (⟨[.elem 3 [] [] [.elem 1 [] [] [.text [121] []], .elem 2 [] [] [.text [122] []]]], 2, 2⟩ : Slice).wf = true ∧
+    (⟨[.elem 3 [] [] [.elem 2 [] [] [.text [122] []]]], 1, 2⟩ : Slice).wf = true ∧
+    (⟨[.elem 1 [] [] [.text [120] []], .elem 1 [] [] [.text [121] []]], 1, 1⟩ : Slice).wf = true := by
+  simp [Slice.wf, spineL, spineR]
 
 end PM.C11
